@@ -59,7 +59,9 @@ def validate_suite(rep, pid, api):
     rep.extra.setdefault("suite_traces", {})[api] = {"recorded": len(mine), "skipped_by_plugin": summary.get("skipped", {}),
                                                       "pytest": summary.get("pytest_tail")}
     if not calls:
-        rep.fail("the recording run of the repository's tests (%s) produced no calls: %s" % (family, summary))
+        # the tests did not run (collection error in a changed tree) or the hook module is gone: nothing recorded, nothing to
+        # validate - a diagnostic, not a verdict and not a machinery failure (the suite is only a driver here)
+        rep.drift.append("the recording run of the repository's tests (%s) produced no calls: %s" % (family, summary))
         return
     if not mine:
         return
